@@ -36,18 +36,18 @@ def run(model, res, tier):
     res.trusted += ['hxsa abstract interpreter with integer linear forms', 'CPython ast']
     em, singles = error_singletons(model)
     E = dict((msg, n) for n, msg in singles.items())
-    _slices(model, res, E)
-    _substitute(model, res)
-    _joins(model, res, E)
-    _delegation(model, res)
-    _text_of_number(model, res)
-    _clean_filter(model, res)
+    H.safely(res, 'R1', 'slices', _slices, model, res, E)
+    H.safely(res, 'R1', 'substitute', _substitute, model, res)
+    H.safely(res, 'R1', 'joins', _joins, model, res, E)
+    H.safely(res, 'R1', 'delegation', _delegation, model, res)
+    H.safely(res, 'R1', 'text_of_number', _text_of_number, model, res)
+    H.safely(res, 'R1', 'clean_filter', _clean_filter, model, res)
     keys = []
     for n in ('LEFT', 'RIGHT', 'MID', 'SUBSTITUTE', 'CONCATENATE', 'TEXTJOIN', 'UPPER', 'LOWER', 'PROPER', 'TRIM', 'CLEAN', 'LEN', 'CHAR', 'CODE'):
         m, f = model.registered(n)
         keys.append((m.name, m.qualname_of(f)))
     region = c.cg.reachable(keys)
-    _unchecked_positions(model, res, c, region)
+    H.safely(res, 'R1', 'unchecked_positions', _unchecked_positions, model, res, c, region)
     H.safely(res, 'R10', 'SUBSTITUTE', _kth_occurrence, model, res)
     purity.check_region(res, c, 'R7', None, region, 'a text function')
     purity.check_memo(res, c, 'R7', region, 'a text function')
@@ -115,6 +115,10 @@ def _slices(model, res, E):
         ('RIGHT', lambda: [Sym('str', 'T'), Const(-1)], 'negative count'),
         ('MID', lambda: [Sym('str', 'T'), Const(1), Const(-1)], 'negative count'),
         ('MID', lambda: [Sym('str', 'T'), Const(0), Const(2)], 'start 0'),
+        # a count between -1 and 0 is negative too (a coercion that truncates before the sign test lets it through as 0)
+        ('LEFT', lambda: [Sym('str', 'T'), Const(-0.5)], 'negative fractional count'),
+        ('RIGHT', lambda: [Sym('str', 'T'), Const(-0.5)], 'negative fractional count'),
+        ('MID', lambda: [Sym('str', 'T'), Const(1), Const(-0.5)], 'negative fractional count'),
         ('LEFT', lambda: [Sym('int', 'X'), Const(1)], 'non-text'),
         ('RIGHT', lambda: [Sym('int', 'X'), Const(1)], 'non-text'),
         ('MID', lambda: [Sym('int', 'X'), Const(1), Const(1)], 'non-text'),
@@ -259,6 +263,9 @@ def _joins(model, res, E):
         'array in the middle': lambda L: [L[0], ListV([L[1], L[2]]), L[3]],
         'nested arrays': lambda L: [ListV([L[0], ListV([L[1]])]), ListV([ListV([L[2]]), L[3]])],
         'array first': lambda L: [ListV([L[0], L[1]]), L[2], L[3]],
+        # a host (range callback, variable) may hand rows over as tuples: the flattener's entry test accepts them, so every level must
+        'tuple row among scalars': lambda L: [L[0], ListV([L[1], L[2]], 'tuple'), L[3]],
+        'tuple of tuples': lambda L: [ListV([ListV([L[0], L[1]], 'tuple'), ListV([L[2], L[3]], 'tuple')], 'tuple')],
     }
     for name in ('CONCATENATE', 'TEXTJOIN'):
         m, f = model.registered(name)
